@@ -44,9 +44,11 @@ N_StringPool == <<95, 83, 116, 114, 105, 110, 103, 80, 111, 111, 108>>
 StreamNames ==
   { <<97>>, <<48, 48>>, <<14336>>, Packable(3), Packable(62), Packable(63), <<97, 32, 98>>, <<233>>, <<18431>>, <<18432>>, <<18495>>,
     <<18496, 97>>, <<97, 18496>>, <<47, 233>>, <<97, 47, 98>>, <<92>>, <<58>>, <<33>>, <<>>, <<201, 97>>, <<67, 97, 102, 201>>, <<931>>,
-    N_Summary, N_DocSummary, N_Signature, N_SigEx, N_StringPool, T, <<128512>> }
+    N_Summary, N_DocSummary, N_Signature, N_SigEx, N_StringPool, T, <<128512>>,
+    \* the ends of the packing alphabet ('0' = 0, '_' = 63) as the odd character of a run and as a pair
+    <<48>>, <<95>>, <<97, 98, 48>>, <<97, 98, 95>>, <<95, 95>> }
 StreamNamesQ == { <<97>>, <<48, 48>>, <<14336>>, Packable(62), Packable(63), <<233>>, <<201, 97>>, <<47, 233>>, <<18496, 97>>, <<>>,
-                  N_Summary, N_Signature, T }
+                  N_Summary, N_Signature, T, <<48>>, <<97, 98, 95>> }
 Eq(c, v) == Bin("eq", Col(c), Lit(v))
 
 E(op, args) == [op |-> op, args |-> args]
@@ -110,16 +112,17 @@ Alphabet ==
          \cup {E("RemoveStream", [name |-> <<115>>])}
          \cup Closes
     [] Cfg = "streams" ->       \* C11 (quick): adversarial names, interleaved with a table operation, reopen, signature
-         {E("WriteStream", [name |-> n, data |-> d]) : n \in StreamNamesQ, d \in {"b01", "g4096_7"}}
+         {E("WriteStream", [name |-> n, data |-> "b01"]) : n \in StreamNamesQ}
+         \cup {E("WriteStream", [name |-> n, data |-> "g4096_7"]) : n \in {<<97>>, Packable(62), T}}     \* overwrite across the small-stream cutoff
          \cup {E("RemoveStream", [name |-> n]) : n \in StreamNamesQ}
          \cup {E("ReadStream", [name |-> n]) : n \in StreamNamesQ}
-         \cup {Cre(T, TabT), E("RemoveSignature", [x |-> 0]), E("AddSignature", [x |-> 0]),
+         \cup {Cre(T, TabT), Drp(T), E("RemoveSignature", [x |-> 0]), E("AddSignature", [x |-> 0]),
                E("Flush", [x |-> 0]), E("IntoInner", [x |-> 0]), E("Reopen", [x |-> 0])}
     [] Cfg = "streamsfull" ->   \* C11 (thorough): all names and sizes
          {E("WriteStream", [name |-> n, data |-> d]) : n \in StreamNames, d \in {"b", "b01", "g4096_7", "g8193_3"}}
          \cup {E("RemoveStream", [name |-> n]) : n \in StreamNames}
          \cup {E("ReadStream", [name |-> n]) : n \in StreamNames}
-         \cup {Cre(T, TabT), Ins(T, <<<<IntV(1), sa>>>>), E("RemoveSignature", [x |-> 0]), E("AddSignature", [x |-> 0]),
+         \cup {Cre(T, TabT), Drp(T), Ins(T, <<<<IntV(1), sa>>>>), E("RemoveSignature", [x |-> 0]), E("AddSignature", [x |-> 0]),
                E("Flush", [x |-> 0]), E("IntoInner", [x |-> 0]), E("Reopen", [x |-> 0])}
     [] Cfg = "limits" ->        \* C20, scaled: 2 columns, 3 rows, a pool that fills up; not replayed (scaled constants)
          {Cre(T, TabT), Cre(U, <<ColK, ColV, ColW>>), Drp(T)}
@@ -180,7 +183,7 @@ MCInit ==
   /\ cp = 65001 /\ summary = InitSummary
   /\ dirty = [fin |-> FALSE, sum |-> FALSE, pool |-> FALSE]
   /\ dpool = [cp |-> 65001, e |-> Created.pool] /\ dsum = summary
-  /\ ustreams = << >> /\ sess = "open" /\ ptype = "Installer" /\ ro = FALSE
+  /\ ustreams = << >> /\ sess = "open" /\ ptype = "Installer" /\ ro = FALSE /\ msync = TRUE
   /\ hist = [path |-> <<>>, last |-> [op |-> "Create", args |-> [ptype |-> "Installer"], res |-> "Ok"]]
 
 MCNext == \E e \in Alphabet : Do(e)
